@@ -73,7 +73,9 @@ class ProjectSettings:
 
     @sim_end.setter
     def sim_end(self, sim_end):
-        self._sim_end = self.sim_start + np.ceil((sim_end - self.sim_start) / self.sim_dt) * self.sim_dt
+        # Round the number of steps before taking the ceiling, so that an end year that is already on the grid
+        # (e.g. assigning `sim_end` back to itself) is not moved a whole step later by floating point error
+        self._sim_end = self.sim_start + np.ceil(np.round((sim_end - self.sim_start) / self.sim_dt, 9)) * self.sim_dt
         if sim_end != self._sim_end:
             logger.info(f"Changing sim end from {sim_end} to {self._sim_end} ({(self._sim_end - self._sim_start) / self._sim_dt:.0f} timesteps)")
 
